@@ -94,8 +94,20 @@ def check(chk):
             else:
                 chk.judge(dec == 'RETHROW' and lvl == 'None', 'C23.default', f, label, 'non-retry row is not (RETHROW, None)')
     # ---- fallthrough
-    for m in METHODS:
-        f = pol.func('FallthroughRetryPolicy.%s' % m)
+    def method_of(cname, m):
+        """the function that `cname().m` runs: own def, a class-level alias of an own def, else the inherited RetryPolicy method"""
+        c_ = pol.cls(cname)
+        for x in c_.body:
+            if isinstance(x, ast.FunctionDef) and x.name == m:
+                return x
+        for x in c_.body:
+            if isinstance(x, ast.Assign) and any(src(t) == m for t in x.targets) and isinstance(x.value, ast.Name):
+                for y in c_.body:
+                    if isinstance(y, ast.FunctionDef) and y.name == x.value.id:
+                        return y
+        return pol.func('RetryPolicy.%s' % m)
+    for m in list(METHODS) + [x for x in ('on_request_error',) if x not in METHODS]:
+        f = method_of('FallthroughRetryPolicy', m)
         for c, dec, lvl, p in rows_of(f):
             chk.judge(dec == 'RETHROW' and lvl == 'None', 'C23.fallthrough', f, 'FallthroughRetryPolicy.%s -> (%s, %s)' % (m, dec, lvl), 'fall-through policy does not rethrow')
     # ---- never retry
